@@ -622,11 +622,13 @@ func keyDecidedByOwnMatchOnly(key ssa.Value, isOwnMatch func(ssa.Value) bool) (b
 
 // ---- constructor-only helpers -------------------------------------------------------------------------------------
 
-var ctorOnlyCache map[*ssa.Function]bool
+// one table per loaded program: the thorough tier loads the tree again under other build configurations
+var ctorOnlyCaches = map[*Ctx]map[*ssa.Function]bool{}
 
 // isConstructorCode: fn is a constructor (a New* function, or a closure inside one), or an unexported helper that is
 // only ever called -- statically, never taken as a value -- from constructor code (three levels).
 func isConstructorCode(c *Ctx, fn *ssa.Function) bool {
+	ctorOnlyCache := ctorOnlyCaches[c]
 	if ctorOnlyCache == nil {
 		callers := map[*ssa.Function][]*ssa.Function{}
 		asValue := map[*ssa.Function]bool{}
@@ -681,6 +683,7 @@ func isConstructorCode(c *Ctx, fn *ssa.Function) bool {
 				}
 			}
 		}
+		ctorOnlyCaches[c] = ctorOnlyCache
 	}
 	root := fn
 	for root.Parent() != nil {
